@@ -28,6 +28,10 @@ import (
 type myRawOpts struct {
 	deprecateEOF bool
 	reexec       bool
+	// longData: string and byte parameters of 8 bytes and more travel in COM_STMT_SEND_LONG_DATA packets
+	// (in two pieces) before the execution, as mysql_stmt_send_long_data() and the drivers' handling of
+	// large values do; the execute packet then carries the parameter's type but no value for it
+	longData bool
 }
 
 type myRawConn struct {
@@ -321,7 +325,7 @@ func (c *myRawConn) readResult(res *StmtResult, binaryRows bool, o myRawOpts) er
 }
 
 // encodeArgs builds the parameter part of COM_STMT_EXECUTE.
-func myEncodeArgs(args []interface{}, withTypes bool) ([]byte, error) {
+func myEncodeArgs(args []interface{}, withTypes bool, long map[int]bool) ([]byte, error) {
 	if len(args) == 0 {
 		return nil, nil
 	}
@@ -340,7 +344,9 @@ func myEncodeArgs(args []interface{}, withTypes bool) ([]byte, error) {
 			values = binary.LittleEndian.AppendUint64(values, uint64(int64(v)))
 		case string:
 			types = append(types, myTypeString, 0)
-			values = lenencStr(values, []byte(v))
+			if !long[i] {
+				values = lenencStr(values, []byte(v))
+			}
 		case []byte:
 			if v == nil {
 				nulls[i/8] |= 1 << (uint(i) % 8)
@@ -348,7 +354,9 @@ func myEncodeArgs(args []interface{}, withTypes bool) ([]byte, error) {
 				continue
 			}
 			types = append(types, myTypeString, 0)
-			values = lenencStr(values, v)
+			if !long[i] {
+				values = lenencStr(values, v)
+			}
 		default:
 			return nil, fmt.Errorf("argument %d: type %T not supported by the simulated client", i, a)
 		}
@@ -454,7 +462,30 @@ func runMyRawClient(conn net.Conn, script []Stmt, results []StmtResult, o myRawO
 			execs = 2
 		}
 		for e := 0; e < execs; e++ {
-			args, err := myEncodeArgs(st.Args, e == 0)
+			long := map[int]bool{}
+			if o.longData {
+				for k, a := range st.Args {
+					var v []byte
+					switch x := a.(type) {
+					case string:
+						v = []byte(x)
+					case []byte:
+						v = x
+					}
+					if len(v) < 8 {
+						continue
+					}
+					long[k] = true
+					for _, piece := range [][]byte{v[:len(v)/2], v[len(v)/2:]} {
+						body := binary.LittleEndian.AppendUint32(nil, id)
+						body = append(body, byte(k), byte(k>>8))
+						if err := c.command(0x18, append(body, piece...)); err != nil {
+							return fmt.Errorf("statement %d: %w", i, err)
+						}
+					}
+				}
+			}
+			args, err := myEncodeArgs(st.Args, e == 0, long)
 			if err != nil {
 				return fmt.Errorf("statement %d: %w", i, err)
 			}
